@@ -18,6 +18,7 @@ import GoNeat.Driver.FastHand
 import GoNeat.Driver.GenRand
 import GoNeat.Driver.ExperimentEpoch
 import GoNeat.Driver.GenStats
+import GoNeat.Driver.Champion
 
 namespace GoNeat.Driver
 def allOps : List (String × Handler) :=
@@ -40,4 +41,5 @@ def allOps : List (String × Handler) :=
   ++ genRandOps
   ++ experimentEpochOps
   ++ genStatsOps
+  ++ championOps
 end GoNeat.Driver
